@@ -92,6 +92,8 @@ class Target:
     pre_env: dict = dataclasses.field(default_factory=dict)  # names bound before a sliced body
     static: dict = dataclasses.field(default_factory=dict)  # python flag argument -> bool: `if flag:` is inlined (must equal the signature default)
     sub: tuple | None = None  # ("lambda", "<assign target text>") | ("expr", "<expression text>"): translate that sub-expression of the function
+    config: dict = dataclasses.field(default_factory=dict)  # static string field of `self` -> its value in THIS specialisation (checked against the class annotation and `__init__`); `if self.f == "v":` is decided at translation time
+    config_fns: tuple = ()  # callable fields of `self` that `__init__` binds in the same block as the `config` value (e.g. activation_fn); `self.f(x)` is translated through that binding
 
 
 # whitelisted library calls: python dotted name -> handler(translator, args(code,type)) -> (code,type)
@@ -261,6 +263,8 @@ LIB = {
     "jnp.asarray": _float,
     "float": _float,
     "norm": _norm,
+    "nn.leaky_relu": _leaky,
+    "jax.nn.leaky_relu": _leaky,
 }
 
 
@@ -272,6 +276,7 @@ class Tr:
         self.numerals: set[int] = set()
         self.uses_sci = False
         self.selfvals: dict[str, tuple] = {}  # for __init__: field -> (code, type)
+        self.cfg_fns: dict[str, Any] = {}  # callable config field -> AST of the expression `__init__` binds it to
 
     # ---------------------------------------------------------------- expressions
     def const(self, v):
@@ -505,9 +510,13 @@ class Tr:
             return "({ " + ", ".join(flds) + " } : " + lean_type(R(st.name)) + ")", R(st.name)
         if fn in self.tgt.calls:
             lname, rt, *rest = self.tgt.calls[fn]
-            argc = [self.es(a)[0] for a in n.args]
+            drop = rest[1] if len(rest) > 1 else ()  # positional pass-through arguments the callee ignores (`condition`)
+            argc = [self.es(a)[0] for a in n.args if not (isinstance(a, ast.Name) and a.id in drop)]
             extra = rest[0] if rest else []
             return "(" + " ".join([lname] + extra + argc) + ")", rt
+        if (isinstance(n.func, ast.Attribute) and isinstance(n.func.value, ast.Name) and n.func.value.id == "self"
+                and n.func.attr in self.cfg_fns):
+            return self.config_fn_call(n, self.cfg_fns[n.func.attr])
         if fn in LIB:
             pos = [a for a in n.args if not (isinstance(a, ast.Name) and a.id in ("float", "int", "bool"))]
             raw = [self._e(a) for a in pos]
@@ -562,6 +571,34 @@ class Tr:
                 return "(" + " ".join([f] + argc) + ")", ft[-1]
         raise Untranslatable(f"call {fn} in {self.tgt.path}")
 
+    def config_fn_call(self, n: ast.Call, bound):
+        """`self.f(args)` where `__init__` binds `self.f = <lib function>` or `self.f = partial(<lib function>, kw=<ctor arg>)`
+        and the constructor stores that argument unchanged in `self.<ctor arg>` (checked in `resolve_config`)."""
+        if n.keywords:
+            raise Untranslatable("keyword arguments in a call of a bound function field")
+        args = [self.es(a) for a in n.args]
+        if isinstance(bound, (ast.Name, ast.Attribute)) and ast.unparse(bound) in LIB:
+            return LIB[ast.unparse(bound)](self, args, {})
+        if (isinstance(bound, ast.Call) and ast.unparse(bound.func) in ("partial", "functools.partial") and len(bound.args) == 1
+                and ast.unparse(bound.args[0]) in LIB):
+            kw = {}
+            for k in bound.keywords:
+                if not isinstance(k.value, ast.Name):
+                    raise Untranslatable("partial(...) keyword is not a constructor argument")
+                kw[k.arg] = self.es(ast.Attribute(value=ast.Name(id="self", ctx=ast.Load()), attr=k.value.id, ctx=ast.Load()))
+            return LIB[ast.unparse(bound.args[0])](self, args, kw)
+        raise Untranslatable(f"bound function field: {ast.unparse(bound)}")
+
+    def _config_test(self, test):
+        """`self.<config field> ==/!= "<string>"` -> True / False; anything else -> None"""
+        if (isinstance(test, ast.Compare) and len(test.ops) == 1 and isinstance(test.ops[0], (ast.Eq, ast.NotEq))
+                and isinstance(test.left, ast.Attribute) and isinstance(test.left.value, ast.Name) and test.left.value.id == "self"
+                and test.left.attr in self.tgt.config and isinstance(test.comparators[0], ast.Constant)
+                and isinstance(test.comparators[0].value, str)):
+            eq = self.tgt.config[test.left.attr] == test.comparators[0].value
+            return eq if isinstance(test.ops[0], ast.Eq) else not eq
+        return None
+
     # ---------------------------------------------------------------- statements
     def body(self, stmts) -> str:
         out = []
@@ -577,6 +614,16 @@ class Tr:
                 out += self.assign(st.targets[0], st.value)
                 continue
             if isinstance(st, ast.If):
+                cv = self._config_test(st.test)
+                if cv is not None:
+                    # test on a static string field fixed in this specialisation: inline the branch taken
+                    for b in (st.body if cv else st.orelse):
+                        if isinstance(b, ast.Raise):
+                            raise Untranslatable(f"{self.tgt.path} raises unconditionally when " + ", ".join(f"{k} == {v!r}" for k, v in self.tgt.config.items()))
+                        if not (isinstance(b, ast.Assign) and len(b.targets) == 1):
+                            raise Untranslatable("static config if: only assignments are inlined")
+                        out += self.assign(b.targets[0], b.value)
+                    continue
                 # only `if <static>: raise` guards are accepted, and are recorded not translated
                 if all(isinstance(s, ast.Raise) for s in st.body) and not st.orelse:
                     continue
@@ -738,11 +785,66 @@ def class_fields(tree, cname):
     return out
 
 
+def resolve_config(tree, tgt: Target) -> dict:
+    """Check a specialisation `config = {field: value}` against the class and return the ASTs `__init__` binds `config_fns` to.
+
+    * the class annotates `field` with a `Literal[...]` containing `value`;
+    * exactly one block of `__init__` assigns `self.field = value`; every `config_fns` field is assigned exactly once in that block;
+    * a constructor argument used by such a binding is stored unchanged and unconditionally (`self.a = a` at the top level)."""
+    if not tgt.config:
+        if tgt.config_fns:
+            raise Untranslatable("config_fns without config")
+        return {}
+    cname = tgt.path.rsplit(".", 1)[0]
+    cls = find_def(tree, cname)
+    if not isinstance(cls, ast.ClassDef):
+        raise Untranslatable(f"{cname} is not a class")
+    init = find_def(tree, cname + ".__init__")
+    blocks_by_field = {}
+    for field, value in tgt.config.items():
+        anns = [st for st in cls.body if isinstance(st, ast.AnnAssign) and isinstance(st.target, ast.Name) and st.target.id == field]
+        if len(anns) != 1 or f"Literal[{value!r}]" not in ast.unparse(anns[0].annotation):
+            raise Untranslatable(f"{cname}.{field} is not annotated as a Literal containing {value!r}")
+        blocks = []
+
+        def visit(stmts):
+            for st in stmts:
+                if (isinstance(st, ast.Assign) and len(st.targets) == 1 and ast.unparse(st.targets[0]) == f"self.{field}"):
+                    if isinstance(st.value, ast.Constant) and st.value.value == value:
+                        blocks.append(stmts)
+                    elif not isinstance(st.value, ast.Constant):
+                        raise Untranslatable(f"{cname}.__init__ assigns a non-constant to self.{field}")
+                if isinstance(st, ast.If):
+                    visit(st.body)
+                    visit(st.orelse)
+                elif isinstance(st, (ast.For, ast.While, ast.With, ast.Try)):
+                    raise Untranslatable(f"{cname}.__init__: compound statement")
+        visit(init.body)
+        if len(blocks) != 1:
+            raise Untranslatable(f"{cname}.__init__ assigns self.{field} = {value!r} in {len(blocks)} places")
+        blocks_by_field[field] = blocks[0]
+    out = {}
+    initargs = [a.arg for a in init.args.args + init.args.kwonlyargs]
+    for f in tgt.config_fns:
+        hits = [st.value for blk in blocks_by_field.values() for st in blk
+                if isinstance(st, ast.Assign) and len(st.targets) == 1 and ast.unparse(st.targets[0]) == f"self.{f}"]
+        if len(hits) != 1:
+            raise Untranslatable(f"{cname}.__init__ binds self.{f} {len(hits)} times next to the config value")
+        out[f] = hits[0]
+        for nm in {n.id for n in ast.walk(hits[0]) if isinstance(n, ast.Name)} & set(initargs):
+            stored = [st for st in init.body if isinstance(st, ast.Assign) and len(st.targets) == 1
+                      and ast.unparse(st.targets[0]) == f"self.{nm}" and isinstance(st.value, ast.Name) and st.value.id == nm]
+            if len(stored) != 1:
+                raise Untranslatable(f"{cname}.__init__ does not store argument {nm} unchanged in self.{nm}")
+    return out
+
+
 def translate_target(repo, tgt: Target, structs) -> tuple[str, Tr]:
     src = open(os.path.join(repo, tgt.file)).read()
     tree = ast.parse(src)
     fn = find_def(tree, tgt.path)
     tr = Tr(tgt, structs)
+    tr.cfg_fns = resolve_config(tree, tgt)
     pyargs = [a.arg for a in fn.args.args + fn.args.kwonlyargs]
     for flag, val in tgt.static.items():
         dflt = dict(zip([a.arg for a in fn.args.kwonlyargs], fn.args.kw_defaults))
@@ -877,5 +979,13 @@ def generate(repo: str, module) -> dict:
             except (Untranslatable, OSError, SyntaxError) as ex:
                 errors.append({"target": item.name, "error": str(ex)})
                 out.append(f"-- UNTRANSLATABLE {item.name}: {ex}\n")
+    for item in getattr(module, "REFUSED", []):
+        # targets the sheet declares untranslatable (a method that raises unconditionally in a specialisation):
+        # becoming translatable means the source changed under the model
+        try:
+            translate_target(repo, item, structs)
+            errors.append({"target": item.name, "error": "expected to be refused by the translator, but it translates"})
+        except (Untranslatable, OSError, SyntaxError):
+            pass
     out.append("end Gen\n")
     return {"text": "\n".join(out), "errors": errors}
